@@ -233,6 +233,53 @@ func repeat(s hotstuff.QuorumSignature, k int) hotstuff.QuorumSignature {
 	return s
 }
 
+// interleave builds a multi-signature of length n that alternates own with the given other signatures (own, o1, own, o2,
+// own, ...): the repeated signer never sits next to itself. ok is false when there is nothing to interleave with.
+func interleave(own hotstuff.QuorumSignature, others []hotstuff.QuorumSignature, n int) (hotstuff.QuorumSignature, bool) {
+	if len(others) == 0 || n < 3 {
+		return nil, false
+	}
+	pick := func(i int) hotstuff.QuorumSignature {
+		if i%2 == 0 {
+			return own
+		}
+		return others[(i/2)%len(others)]
+	}
+	switch own.(type) {
+	case crypto.Multi[*fastSig]:
+		var out crypto.Multi[*fastSig]
+		for i := 0; i < n; i++ {
+			m, ok := pick(i).(crypto.Multi[*fastSig])
+			if !ok || len(m) == 0 {
+				return nil, false
+			}
+			out = append(out, m[0])
+		}
+		return out, true
+	case crypto.Multi[*crypto.ECDSASignature]:
+		var out crypto.Multi[*crypto.ECDSASignature]
+		for i := 0; i < n; i++ {
+			m, ok := pick(i).(crypto.Multi[*crypto.ECDSASignature])
+			if !ok || len(m) == 0 {
+				return nil, false
+			}
+			out = append(out, m[0])
+		}
+		return out, true
+	case crypto.Multi[*crypto.EDDSASignature]:
+		var out crypto.Multi[*crypto.EDDSASignature]
+		for i := 0; i < n; i++ {
+			m, ok := pick(i).(crypto.Multi[*crypto.EDDSASignature])
+			if !ok || len(m) == 0 {
+				return nil, false
+			}
+			out = append(out, m[0])
+		}
+		return out, true
+	}
+	return nil, false
+}
+
 // Actor action kinds.
 const (
 	AProposeHonest = iota // a well-formed proposal extending the highest known QC, in a view the actor leads
@@ -377,10 +424,33 @@ func (a *Actor) Act(A, B, C int) {
 		a.addQC(rq)
 	case ARepeatQC:
 		blk := cl.AllBlk[mod(B, len(cl.AllBlk))]
+		if mod(C, 2) == 1 {
+			// prefer a recent block somebody else voted for: the repeated signature can then be interleaved with a genuine one
+			for i := len(cl.AllBlk) - 1; i >= 0 && i >= len(cl.AllBlk)-6; i-- {
+				if len(a.Votes[cl.AllBlk[i].Hash()]) > 0 {
+					blk = cl.AllBlk[i]
+					break
+				}
+			}
+		}
 		if blk.View() == 0 {
 			return
 		}
-		qc := hotstuff.NewQuorumCert(repeat(a.sign(me, blk.ToBytes()), cl.Quorum()), blk.View(), blk.Hash())
+		own := a.sign(me, blk.ToBytes())
+		fs := repeat(own, cl.Quorum())
+		if mod(C, 2) == 1 {
+			// copies of the actor's signature that are NOT adjacent: own, other, own, ... (fewer distinct signers than a quorum)
+			var others []hotstuff.QuorumSignature
+			for _, v := range a.Votes[blk.Hash()] {
+				if v.Signer() != me.ID && len(others) < (cl.Quorum()-1)/2 {
+					others = append(others, v.Signature())
+				}
+			}
+			if il, ok := interleave(own, others, cl.Quorum()); ok {
+				fs = il
+			}
+		}
+		qc := hotstuff.NewQuorumCert(fs, blk.View(), blk.Hash())
 		a.Forged[string(qc.ToBytes())] = "repeated-signer"
 		a.ForgedQCs = append(a.ForgedQCs, qc)
 		a.addQC(qc)
@@ -406,6 +476,23 @@ func (a *Actor) Act(A, B, C int) {
 		}
 		if !seen[me.ID] {
 			sigs = append(sigs, a.sign(me, best.ToBytes()))
+		}
+		if mod(C, 5) == 4 && len(sigs) >= 2 && len(sigs) < cl.Quorum() {
+			// too few distinct timeouts: pad with copies of the actor's signature that are not adjacent to each other
+			own := a.sign(me, best.ToBytes())
+			var others []hotstuff.QuorumSignature
+			for _, t := range byView[best] {
+				if t.ID != me.ID && t.ViewSignature != nil && len(others) < (cl.Quorum()-1)/2 {
+					others = append(others, t.ViewSignature)
+				}
+			}
+			if il, ok := interleave(own, others, cl.Quorum()); ok {
+				tc := hotstuff.NewTimeoutCert(il, best)
+				a.Forged["tc:"+string(tc.ToBytes())] = "repeated-signer-interleaved"
+				a.ForgedTCs = append(a.ForgedTCs, tc)
+				a.TCs = append(a.TCs, tc)
+				return
+			}
 		}
 		if len(sigs) < 2 || mod(C, 4) == 3 {
 			// nothing to combine (or by choice): a "certificate" carrying only the actor's own, valid, signature for the frontier view
